@@ -1,7 +1,8 @@
 (* C08: lemmas about the converter validation code translated from /repo (Gen/C08Conv.v).
-   The scripts are written to go through both on the current code (a declared bound equal to 0 is dropped by
-   `min_val or lowest` / `if converter.min_val and ...` / `if max_len and ...`) and on the repaired code: the
-   boolean `*_ignored` flags of Model/C08Spec.v are computed from the translated code itself. *)
+   The generic lemmas are parameterised by the boolean `*_ignored` flags of Model/C08Spec.v, which are computed from the
+   translated code itself (does it drop a declared bound equal to 0?): they go through on code with and without the defect.
+   For int/float the current /repo is repaired (2abc421): int_flag_false / real_flag_false compute the flags to false and the
+   unrestricted theorems follow; for str (`if max_len and ...`) the flag is still true. *)
 Require Import PonyV.Base.PyBase PonyV.Model.C08Base PonyV.Gen.C08Conv PonyV.Model.C08Spec PonyV.Proofs.C08IntInit.
 From Coq Require Import ZifyBool.
 Open Scope Z_scope.
